@@ -16,6 +16,7 @@ import copy
 import itertools
 import json
 import os
+import re
 import signal
 import traceback
 
@@ -26,7 +27,7 @@ from ..common import DIAGNOSTIC_EXC
 
 SIGMA = ["int", "const", "unsigned", "long", "void", "Cls", "std", "vector", "a", "b", "3", "*", "&", "(", ")",
          "[", "]", "<", ">", ",", "::", "=", "+intent(in)", "+x(", "~", "{", "}", ";", "...", "template", "enum",
-         "struct"]
+         "struct", "0x1F"]
 CORE = ["int", "const", "a", "*", "&", "(", ")", ",", "["]
 OPEN = {"(": ")", "[": "]", "<": ">", "{": "}"}
 CLOSE = {v: k for k, v in OPEN.items()}
@@ -125,16 +126,31 @@ def collapse(toks):
     return [t for t in out if t is not None]
 
 
+def numnorm(tok):
+    """A numeric literal by value: 1e3, 1000.0 and 1000. are one token; so are 2. and 2.0."""
+    m = re.match(r"^(\+\w+\()(.*)\)$", tok)
+    if m:
+        return m.group(1) + numnorm(m.group(2)) + ")"
+    if re.match(r"^\d+$", tok):
+        return tok
+    if re.match(r"^(\d+\.?\d*|\.\d+)([eE][-+]?\d+)?$", tok):
+        try:
+            return repr(float(tok))
+        except ValueError:
+            return tok
+    return tok
+
+
 def dropped_tokens(text, node):
     """Tokens of the accepted input that Shroud's rendering of the parse does not account for."""
     try:
-        rtoks = collapse(tokens_of(render(node)))
+        rtoks = [numnorm(t) for t in collapse(tokens_of(render(node)))]
     except Exception:  # noqa - rendering trouble is C09's subject
         return None
     itoks = tokens_of(text)
     if itoks and itoks[-1] == ";":
         itoks = itoks[:-1]
-    itoks = collapse(itoks)
+    itoks = [numnorm(t) for t in collapse(itoks)]
     have = collections.Counter(rtoks)
     want = collections.Counter(itoks)
     missing = []
@@ -270,7 +286,9 @@ def mutation_shard(args):
     stats, bad, vstats = {}, {}, {}
     cnt = 0
     seen = set()
-    subst = ["int", "const", "*", "&", "(", ")", ",", "[", "]", "<", ">", "=", "::", "+", "a", "3", ";", "~", "{", "..."]
+    subst = ["int", "const", "*", "&", "(", ")", ",", "[", "]", "<", ">", "=", "::", "+", "a", "3", ";", "~", "{", "...",
+             # literal spellings the tokenizer may or may not know: hexadecimal, exponent, trailing dot, character, string, sign
+             "0x10", "1e3", "2.", "'c'", '"s"', "-"]
     for idx, (kind, d) in enumerate(declgen.all_decls(max(level, 2))):
         if idx % nshards != shard:
             continue
@@ -485,7 +503,7 @@ patterns:
 REPLACEMENTS = [None, 7, "text", [], {}, ["x"], {"k": "v"}, True]
 # single mutations for which the code has a dedicated diagnostic: must be rejected, not merely survive
 YAML_MUST_REJECT = [
-    (("language",), "fortran", "language"),
+    (("language",), "fortran", ("language", "fortran")),
     (("declarations", 3, "declarations", 0, "cxx_template"), "text", "cxx_template"),
     (("declarations", 3, "declarations", 0, "cxx_template"), ["x"], "cxx_template"),
     (("declarations", 3, "declarations", 0, "cxx_template"), [{"k": "v"}], "cxx_template"),
@@ -493,8 +511,8 @@ YAML_MUST_REJECT = [
     (("declarations", 3, "declarations", 0, "fortran_generic"), ["x"], "fortran_generic"),
     (("declarations", 3, "declarations", 0, "fortran_generic"), [{"k": "v"}], "fortran_generic"),
     (("declarations", 0, "default_arg_suffix"), "text", "default_arg_suffix"),
-    (("declarations", 0), {"k": "v"}, "Expected"),
-    (("typemap", 0, "fields", "base"), "other", "base"),
+    (("declarations", 0), {"zork": "v"}, "zork"),
+    (("typemap", 0, "fields", "base"), "other", ("base", "other")),
     (("declarations", 1, "declarations", 0), {"decl": "namespace inner"}, "namespace"),
     (("declarations", 4, "decl"), "typedef nosuchtype Alias", "nosuchtype"),
 ]
@@ -674,7 +692,8 @@ def run(ctx):
     ctx.nontrivial_n(len(yres))
     for mid, status, exc, site, msg in yres:
         ctx.outcome("yaml " + status)
-        if mid[0] == "must-reject" and (status == "ok" or (status == "diagnostic" and mid[3] not in msg)):
+        if mid[0] == "must-reject" and (status == "ok" or (status == "diagnostic" and not any(
+                alt in msg for alt in (mid[3] if isinstance(mid[3], tuple) else (mid[3],))))):
             ctx.violation("yaml accepted %s=%s" % (mid[1], mid[2]),
                           "YAML misuse with a dedicated diagnostic: %s = %s -> %s %r (the message should name %r)" % (
                               mid[1], mid[2], status, msg, mid[3]), {"kind": "yaml", "mutation": mid})
